@@ -33,7 +33,7 @@ def phase(c, tier, extra_sources=()):
     srcs = []
     for nalpha, n in ((12, 4 if q else 5), (23, 3 if q else 4)):
         cfg = tlc.cfg_text(constants={'MaxSym': n, 'NAlpha': nalpha}, invariants=inv + ['Dump'], properties=['Progress', 'Terminates'])
-        r = c.tlc('Scanner.tla: all sources of <= %d symbols over %d (invariants, progress, termination)' % (n, nalpha), 'Scanner', cfg, timeout=1800)
+        r = c.tlc('Scanner.tla: all sources of <= %d symbols over %d (invariants, progress, termination)' % (n, nalpha), 'Scanner', cfg, timeout=1800, extra=('-lncheck', 'final'))
         srcs += [b['src'] for b in r.json('@@')]
     srcs += list(extra_sources)
     c.rng.shuffle(srcs)
